@@ -20,6 +20,7 @@ const c05PerCase = 75
 
 func init() {
 	floors := map[string]int64{
+		"retlocal_programs": 30, "retlocal_executed": 30,
 		"scenario:script": 700, "scenario:history": 240, "big_container": 420, "with_attachment": 40, "mutated:a": 300, "mutated:b": 300, "mutated:temporary": 60,
 		"mode:direct": 450, "mode:ref": 250, "mode:storage-ref": 60, "mode:temporary": 60, "depth>=2": 200, "depth>=3": 90,
 		"executions_I": 2000, "executions_V": 2000, "executions_Vp": 2000, "unchanged_observers_checked": 4000, "readback_checked": 900,
@@ -176,6 +177,8 @@ func c05Run(h *host.Host, eng host.Engine, s *c05Scen) (s1, s2, s3 []string, fai
 }
 
 func runC05(c *core.Ctx) {
+	// returned locals that outlive the call (c05_retlocal.go)
+	c05RetLocal(c)
 	hosts := map[host.Engine]*host.Host{}
 	getHost := func(eng host.Engine) *host.Host {
 		if h, ok := hosts[eng]; ok {
